@@ -104,7 +104,8 @@ def main():
                 for prop in m.get("check_properties", [m["property"]]):
                     jobs.append(("seeded", s, prop, patch))
     if a.only:
-        jobs = [j for j in jobs if a.only in j[1] or a.only == j[2]]
+        pats = a.only.split(",")
+        jobs = [j for j in jobs if any(p_ in j[1] or p_ == j[2] for p_ in pats)]
     bad = 0
     results = []
     with cf.ThreadPoolExecutor(max_workers=a.jobs) as ex:
